@@ -267,7 +267,7 @@ def h_sets(ctx):
     """import_key_set(as_dict()) preserves every key; every member has a kid; ECDH-1PU sender set with skid."""
     from joserfc.jwk import KeySet
     sname = ctx.choose("set", list(SETS))
-    mode = ctx.choose("mode", ["roundtrip-private", "roundtrip-public", "construct-without-kid", "generate", "1pu-skid"])
+    mode = ctx.choose("mode", ["roundtrip-private", "roundtrip-public", "construct-without-kid", "import-jwks-without-kids", "generate", "1pu-skid"])
     ms = members(sname)
     vs = []
     if mode.startswith("roundtrip"):
@@ -298,6 +298,24 @@ def h_sets(ctx):
         for e in ks.as_dict()["keys"]:
             if not e.get("kid"):
                 vs.append(viol("exported key set has a member without kid", sname))
+    elif mode == "import-jwks-without-kids":
+        # a JWK Set document whose members carry no kid (RFC 7517 does not require one): every key is kept and gets its thumbprint
+        priv = ctx.choose("members", ["private", "public"])
+        doc = {"keys": [dict(m["jwk"] if (priv == "private" or m["jwk"]["kty"] == "oct") else rjwk.public_of(m["jwk"])) for m in ms]}
+        r = call(KeySet.import_key_set, copy.deepcopy(doc))
+        if not r.ok:
+            vs.append(viol("a JWK Set whose members have no kid cannot be imported", f"{sname}: {r.exc!r}"))
+        else:
+            ks = r.value
+            if len(ks.keys) != len(ms):
+                vs.append(viol("importing a JWK Set whose members have no kid drops keys", f"{sname}: {len(ks.keys)} of {len(ms)} kept"))
+            for m in ms:
+                want = rjwk.thumbprint(rjwk.public_of(m["jwk"]))
+                g = call(ks.get_by_kid, want)
+                if not g.ok:
+                    vs.append(viol("a member of an imported JWK Set is not found under its thumbprint kid", f"{sname}: {want}"))
+            if len(call(lambda: ks.as_dict()["keys"]).value or []) != len(ms):
+                vs.append(viol("import then export of a JWK Set does not preserve every key", f"{sname}"))
     elif mode == "generate":
         for kt, arg in (("oct", 128), ("EC", "P-256"), ("OKP", "Ed25519")):
             ks = KeySet.generate_key_set(kt, arg, count=3)
